@@ -962,7 +962,7 @@ func (e *specEnv) eval(x *SX) (Val, types.Type, error) {
 		return Val{T: fmt.Sprintf("(ssub %s %s %s)", a.T, lo, hi), S: SStr}, types.Typ[types.String], nil
 	case "field":
 		// result.N
-		if x.Args[0].Op == "ident" && (x.Args[0].Name == "result" || strings.HasPrefix(x.Args[0].Name, "dyn")) {
+		if x.Args[0].Op == "ident" && (x.Args[0].Name == "result" || strings.HasPrefix(x.Args[0].Name, "dyn") || strings.HasPrefix(x.Args[0].Name, "res_")) {
 			if v, ok := e.vars[x.Args[0].Name+"."+x.Name]; ok {
 				return v, e.gtOf(x.Args[0].Name+"."+x.Name, v), nil
 			}
@@ -1396,6 +1396,22 @@ func (e *specEnv) evalCall(x *SX) (Val, types.Type, error) {
 			return Val{T: fmt.Sprintf("(and (=> ((_ is a_map) %s) (> (a_m %s) %s)) (=> ((_ is a_list) %s) (> (s_ref (a_l %s)) %s)))", a.T, a.T, wm, a.T, a.T, wm), S: SBool}, nil, nil
 		}
 		return Val{}, nil, fmt.Errorf("fresh of %s", a.S)
+	case "allocated":
+		// allocated(x): the object x refers to exists in the state the clause is evaluated in (x is not younger
+		// than the current allocation watermark); together with fresh() it places an object between two points
+		a, _, err := arg(0)
+		if err != nil {
+			return Val{}, nil, err
+		}
+		wm := c.heapIn(e.st, "$wm")
+		c.heapReads++
+		switch a.S {
+		case SInt:
+			return Val{T: fmt.Sprintf("(<= %s %s)", a.T, wm), S: SBool}, nil, nil
+		case SSlice:
+			return Val{T: fmt.Sprintf("(<= (s_ref %s) %s)", a.T, wm), S: SBool}, nil, nil
+		}
+		return Val{}, nil, fmt.Errorf("allocated of %s", a.S)
 	case "frame":
 		// frame(): every row that existed at function entry and is outside the assigns clause holds what it
 		// held at entry, for every heap class (a loop invariant that carries the function's frame through a
